@@ -5,7 +5,8 @@ import numpy as np
 
 PROPS_MODULE = "NessaiVerif.Props.C04"
 MANIFEST = dict(
-    text="Lean refinement proof over a literal model of OrderedSamples (np.searchsorted/np.insert index arithmetic, "
+    text="TRANSLATION TIE: OrderedSamples.add_to_nested_samples (the index program every removal and the finalisation go through) is translated from the current source (harness/pyarr2lean.py -> Gen/OrderedTx.lean) and theorem add_to_nested_samples_source_eq_model proves it equal to the model's addToNested. "
+         "Lean refinement proof over a literal model of OrderedSamples (np.searchsorted/np.insert index arithmetic, "
          "get_inverse_indices remap, add_to_nested_samples, remove_samples, finalise): for every operation sequence of "
          "any length and any batch sizes the store stays sorted, live/nested index arrays are strictly increasing and "
          "partition the indices, every sample ever added is present (multiset conservation), rows stay attached, "
@@ -15,7 +16,7 @@ MANIFEST = dict(
          "with the property's predicates evaluated on the real object after every operation.",
     note="np.argsort(order='logL') tie-breaking by the remaining dtype fields (unique id first) is mirrored by the model's "
          "(key,id) order; states reached after an exception are not explored (the sequence ends at the first error).",
-    technique="Lean 4 proof (invariant + refinement by induction over op sequences) + differential correspondence",
+    technique="Lean 4 proof (invariant + refinement by induction over op sequences) + source-to-Lean translation of add_to_nested_samples re-proved equal to the model on every run + differential correspondence",
     ref="5/C04")
 
 NEG = -999  # stands for a likelihood of -inf (the model treats it as an ordinary smallest key, as NumPy does)
